@@ -451,7 +451,7 @@ def main(prop_id, tier, seed):
             violations.append((path, bad[0]))
 
     # minimise and persist every unknown bucket
-    max_evals = int(os.environ.get("VERIF_SHRINK_EVALS", "300" if tier == "quick" else "1500"))
+    max_evals = int(os.environ.get("VERIF_SHRINK_EVALS", str(getattr(mod, "SHRINK_EVALS", 2000 if tier == "quick" else 5000))))
     merged["bucket_summary"] = {}
     for k in sorted(buckets):
         b = buckets[k]
